@@ -192,17 +192,30 @@ func vXYX(bt bool) {
 		ht.hr.(*vUFRoller).word = w
 	}
 	ylen := 5 + vConcretize(int(vNondetU8("ylen"))%2)
-	pre := vConcretize(int(vNondetU8("pre")) % 2) // bytes before the first X
+	// bytes before the first X: 0 or 1, or 14..21 so that the ring of 29 cells has wrapped
+	// and the wrap point falls before, inside or after the first X and the look-ahead
+	pi := vConcretize(int(vNondetU8("pre")) % 10)
+	vAssume(pi%vShards() == vShardIdx())
+	pre := []int{0, 1, 14, 15, 16, 17, 18, 19, 20, 21}[pi]
 	var hist []byte
-	hist = append(hist, []byte{0x11, 0x12}[:pre]...)
+	for i := 0; i < pre; i++ {
+		hist = append(hist, byte(0x11+i))
+	}
 	hist = append(hist, x...)
 	hist = append(hist, []byte{1, 2, 3, 4, 5, 6}[:ylen]...)
-	k, _ := d.Write(hist)
-	vAssert(k == len(hist), "history fits")
-	d.Discard(len(hist)) // the encoder has coded these bytes; the matcher has seen them
+	// the encoder has coded these bytes; the matcher has seen them (fed in pieces that fit the look-ahead)
+	for off := 0; off < len(hist); off += 8 {
+		end := off + 8
+		if end > len(hist) {
+			end = len(hist)
+		}
+		k, _ := d.Write(hist[off:end])
+		vAssert(k == end-off, "history piece fits")
+		d.Discard(end - off)
+	}
 	la := append([]byte{}, x...)
 	la = append(la, 0x7f)
-	k, _ = d.Write(la)
+	k, _ := d.Write(la)
 	vAssert(k == len(la), "look-ahead fits")
 	rep0 := vNondetU32("rep0")
 	op := m.NextOp([4]uint32{rep0, 0, 0, 0})
